@@ -57,11 +57,12 @@ REQUIRED_COUNTERS = ['trials_checked', 'runs_reproduced',
                      'get_results_checked', 'batch_runs',
                      'batch_shared_error_model', 'interrupted_runs',
                      'sampled_errors_support_checked',
-                     'hash_seed_sessions_compared']
+                     'hash_seed_sessions_compared',
+                     'batch_run_calls_on_one_object']
 SHARD_TIMEOUT = {'quick': 900, 'thorough': 5400}
 
 DIRS = {'pureZ': (0.0, 0.0, 1.0), 'pureX': (1.0, 0.0, 0.0),
-        'xz': (0.5, 0.0, 0.5),
+        'xz': (0.5, 0.0, 0.5), 'x8z2': (0.8, 0.0, 0.2), 'xy': (0.5, 0.5, 0.0),
         'depol': (1 / 3, 1 / 3, 1 / 3), 'biasZ3': (0.125, 0.125, 0.75),
         'skew': (0.5, 0.3, 0.2), 'pureY': (0.0, 1.0, 0.0),
         'biasZ30': (1 / 62, 1 / 62, 30 / 31),
@@ -432,6 +433,15 @@ def plan(tier, seed):
                                     'size': list(size), 'noise': noise,
                                     'noise_def': None, 'rate': rate,
                                     'dec_rate': 0.1})
+    # channels with one component exactly zero but two letters per qubit
+    for cls, size in (('Planar2DCode', (2, 2)), ('RotatedPlanar2DCode', (3, 3))):
+        for noise in ('xz', 'x8z2', 'xy'):
+            for ndn in (None, 'XZZX'):
+                for rate in (0.3, 1.0):
+                    special.append({'decoder': 'MatchingDecoder', 'cls': cls,
+                                    'size': list(size), 'noise': noise,
+                                    'noise_def': ndn, 'rate': rate,
+                                    'dec_rate': 0.1})
     if tier == 'quick':
         rng = np.random.default_rng([seed, 1112])
         keep = rng.choice(len(cells), size=min(len(cells), 40), replace=False)
@@ -692,15 +702,30 @@ def run_batch(task, out):
     try:
         with contextlib.redirect_stdout(io.StringIO()):
             batch = read_input_dict(spec, path, verbose=False,
-                                    save_frequency=10 ** 9)
+                                    save_frequency=97)
             sims = list(batch._simulations)
             if len({id(s.error_model) for s in sims}) == 1 and len(sims) > 1:
                 out.count('batch_shared_error_model')
             for sim in sims:
                 sim.rng = np.random.default_rng([task['seed'], 1113])
-            batch.run(task['N'])
+            # ONE batch object, run() called several times with growing
+            # targets (a notebook that asks for more trials); after every
+            # call each simulation's stored lists are the trials it ran
+            S = len(sims)
+            N = task['N']
+            for target in (max(1, N // 50), N // 10, N // 3, N):
+                batch.run(target)
+                out.count('batch_run_calls_on_one_object')
+                for j, sim in enumerate(sims):
+                    mine = rec.shots[j::S]
+                    d = {'k': 'batch-after-run', 'cls': task['cls'],
+                         'size': list(sim.code.size), 'target': target}
+                    if len(mine) != target:
+                        out.violation(f'{mech}/trial-count',
+                                      f'{len(mine)} trials executed by a '
+                                      f'simulation after run({target})', d)
+                    check_results(out, sim, mine, d, mech)
         # trials are interleaved over simulations in list order
-        S = len(sims)
         orcs = [CodeOracle(sim.code) for sim in sims]
         if len(rec.shots) == S * task['N']:
             badn = 0
